@@ -42,7 +42,7 @@ def run(pid, tier, replay=None):
     for name, consts in configs(tier):
         cfg = vlib.write_cfg(sc.path(name + ".cfg"), ["CONSTANTS"] + [" " + c for c in consts] + ["INIT Init", "NEXT Next", "VIEW view", "INVARIANT Inv", "ACTION_CONSTRAINT Emit"])
         out = sc.path("edges-%s.out" % name)
-        res = tlc(os.path.join(SPECDIR, "StrMC.tla"), cfg, sc, timeout=300, heap="12g", capture_prefix="3333333", stdout_path=out)
+        res = tlc(os.path.join(SPECDIR, "StrMC.tla"), cfg, sc, timeout=2400, heap="12g", capture_prefix="3333333", stdout_path=out)
         tlc_must_pass(res, "StrMC " + name)
         ck.add_tlc(res, "model_" + name)
         summ, crashes = replay_with_resume(ck, exe, out, sc.path("g-" + name), 14, keyfn)
